@@ -13,12 +13,15 @@ from . import keyslib as K
 RULE = ("per named curve: d in {1, 2, 3, n-1, n-2, 256^(l-1)-1, 256^(l-1), 256^(l-2)-1, first d whose x resp. y has a "
         "leading zero byte, random}; every key through to_string/from_string (4 point encodings), to_der/from_der and "
         "to_pem/from_pem (3 point encodings + the rejected raw, ssleay and pkcs8), plus independently encoded variants "
-        "(ECPrivateKey without publicKey / with a short privateKey, PKCS#8 version 0 / ecDH / ecMQV / trailing "
-        "attributes); out-of-range secret exponents; base64/PEM armour on all short inputs and odd line structures. "
+        "(ECPrivateKey without publicKey / with a short privateKey, PKCS#8 version 0 (RFC) / version 1 as written / v2 with "
+        "top-level publicKey / ecDH / ecMQV / trailing attributes); out-of-range secret exponents; base64/PEM armour on all short inputs and odd line structures. "
         "distinct = operation line; non-trivial = every case with a valid key (all but the out-of-range ones)")
 LEANCHECK = ["Props.C09"]
 EXTRA_PROPS = ["C09t"]   # translator tie of keys.py / curves.py decisions (gen_keys.py -> Generated/KeysSlices.lean, Props/C09t.lean; by rand)
 ASSUMPTIONS = [
+    "K3 (open): to_der(format='pkcs8') writes version 1 without the top-level publicKey; the independent RFC 5958 encoder "
+    "writes 0; an output differing ONLY in that INTEGER is reported as KNOWN-FINDING K3 once per run, any other difference "
+    "is a new violation; Lean: C09.pkcs8_written_form / pkcs8_version_irrelevant (the model reproduces the finding)",
     "generic theorems: Q = dG (Ext.pubPoint), the square root and base64.b64decode are parameters with their contracts as "
     "hypotheses; all_round_trips_model discharges them on the composed model (C07 via GroupInterface with the base-point "
     "order checked by the kernel, C15.sqrt_spec, and the proved inverse property of the model of CPython's lenient "
@@ -61,8 +64,9 @@ def variants(ci, d, pt):
         (full, "ecpriv"),
         (K.ecprivatekey(db, ci.oid, None), "ecpriv-nopub"),
         (K.ecprivatekey(short, ci.oid, pt), "ecpriv-short-d"),
-        (K.pkcs8(full, ci.oid), "pkcs8"),
-        (K.pkcs8(full, ci.oid, version=0), "pkcs8-v0"),
+        (K.pkcs8(full, ci.oid), "pkcs8-rfc-v0"),
+        (K.pkcs8(full, ci.oid, version=1), "pkcs8-v1-as-written"),
+        (K.pkcs8(full, ci.oid, tail=K.tlv(0x81, b"\x00" + pt)), "pkcs8-v2-with-publicKey"),
         (K.pkcs8(K.ecprivatekey(db, None, None), ci.oid), "pkcs8-bare-inner"),
         (K.pkcs8(K.ecprivatekey(short, None, pt), ci.oid, alg=K.OID_ECDH), "pkcs8-ecDH-short-d"),
         (K.pkcs8(full, ci.oid, alg=K.OID_ECMQV), "pkcs8-ecMQV"),
@@ -152,8 +156,12 @@ def correspond(ctx):
 
 
 # ------------------------------------------------------------------------------------------------
-def check_key(ci, d, deep=True):
-    """the property at (curve, d): list of failure descriptions (empty = holds)"""
+def check_key(ci, d, deep=True, k3=None):
+    """the property at (curve, d): list of failure descriptions (empty = holds).  Outputs that differ from the independent
+    RFC 5958 encoder ONLY in the version INTEGER (1 instead of 0, no top-level publicKey) are the open known finding K3:
+    they are appended to `k3` and not to the failures."""
+    if k3 is None:
+        k3 = []
     from ecdsa import SigningKey, VerifyingKey
     bad = []
     cv = ci.cv
@@ -212,16 +220,19 @@ def check_key(ci, d, deep=True):
         same_vk(VerifyingKey.from_pem(K.pem(ref, "PUBLIC KEY"), hashlib.sha256), "from_pem(%s)" % enc)
         same_vk(VerifyingKey.from_pem(K.pem(ref, "PUBLIC KEY").decode(), hashlib.sha256), "from_pem(str, %s)" % enc)
         ecp = K.ecprivatekey(db, ci.oid, pt)
-        p8 = K.pkcs8(ecp, ci.oid)
+        p8 = K.pkcs8(ecp, ci.oid)                       # RFC 5958: version 0, there is no top-level publicKey
         for fmt, ref, name in (("ssleay", ecp, "EC PRIVATE KEY"), ("pkcs8", p8, "PRIVATE KEY")):
             got = sk.to_der(enc, fmt)
-            if got != ref:
+            is_k3 = fmt == "pkcs8" and got != ref and got == K.pkcs8(ecp, ci.oid, version=1)
+            if is_k3:
+                k3.append({"curve": ci.name, "d": d, "enc": enc, "got": got.hex(), "rfc5958": ref.hex()})
+            elif got != ref:
                 bad.append("SigningKey.to_der(%s, %s) is not the canonical %s" % (enc, fmt, "ECPrivateKey" if fmt == "ssleay" else "OneAsymmetricKey"))
             try:
                 inner = got
                 if fmt == "pkcs8":
                     ver, alg, co, inner = K.parse_pkcs8(got)
-                    if (ver, alg, co) != (1, K.OID_ECPUB, ci.oid):
+                    if (ver, alg, co) != (1 if is_k3 else 0, K.OID_ECPUB, ci.oid):
                         bad.append("strict decoder reads other PKCS#8 header values (%s)" % enc)
                 ver, dd, co, pb = K.parse_ecprivatekey(inner)
                 if ver != 1 or int.from_bytes(dd, "big") != d or len(dd) != ci.nl or co != ci.oid or pb != pt:
@@ -229,7 +240,7 @@ def check_key(ci, d, deep=True):
             except K.DerError as e:
                 bad.append("strict decoder rejects SigningKey.to_der(%s, %s): %s" % (enc, fmt, e))
             same_sk(SigningKey.from_der(ref, hashlib.sha256), "SigningKey.from_der(independent %s %s)" % (fmt, enc))
-            if sk.to_pem(enc, fmt) != K.pem(ref, name):
+            if sk.to_pem(enc, fmt) != K.pem(got if is_k3 else ref, name):
                 bad.append("SigningKey.to_pem(%s, %s) is not the RFC 7468 armour of the DER" % (enc, fmt))
             same_sk(SigningKey.from_pem(K.pem(ref, name), hashlib.sha256), "SigningKey.from_pem(%s %s)" % (fmt, enc))
     for (blob, vtag) in variants(ci, d, K.enc_point(ci, x, y, "uncompressed")):
@@ -243,13 +254,14 @@ def check_key(ci, d, deep=True):
 def search(ctx):
     from ecdsa import curves as C
     n_eval = 0
+    k3 = []
     for cv in C.curves:
         ci = K.CurveInfo(cv)
         ds = scalars(ctx, ci)
         for i, d in enumerate(ds):
             n_eval += 1
             try:
-                bad = check_key(ci, d, deep=(not ctx.quick) or i < 4 or ci.l <= 32)
+                bad = check_key(ci, d, deep=(not ctx.quick) or i < 4 or ci.l <= 32, k3=k3)
             except Exception as e:  # noqa
                 import traceback
                 bad = ["exception %s: %s" % (common.errname(e), traceback.format_exc()[-400:])]
@@ -259,6 +271,15 @@ def search(ctx):
                                "expected": "canonical DER of SPKI / ECPrivateKey / OneAsymmetricKey, exact round trips"})
                 if len(ctx.violations) >= 5:
                     return
+    if k3:
+        # open known finding K3, reported once per run: the version INTEGER of the PKCS#8 output is 1, RFC 5958 says 0
+        w = k3[0]
+        ctx.violation({"input": {"curve": w["curve"], "d": w["d"], "point_encoding": w["enc"], "format": "pkcs8", "k3": True},
+                       "observed": {"to_der": w["got"], "version": 1, "occurrences_this_run": len(k3)},
+                       "expected": {"independent RFC 5958 encoder": w["rfc5958"], "version": 0,
+                                    "difference": "only the version INTEGER (no top-level publicKey field is present)"},
+                       "known": "K3"})
+    ctx.cov["known_K3_hits"] = len(k3)
     ctx.cov["search_evaluations"] = n_eval
     ctx.hist("search", "oracle_cases", n_eval)
 
@@ -267,6 +288,13 @@ def replay(rec):
     from ecdsa import curves as C
     i = rec["input"]
     cv = next(c for c in C.curves if c.name == i["curve"])
+    if i.get("k3"):
+        k3 = []
+        try:
+            check_key(K.CurveInfo(cv), int(i["d"]), deep=False, k3=k3)
+        except Exception:  # noqa
+            return True
+        return bool(k3)
     try:
         return bool(check_key(K.CurveInfo(cv), int(i["d"])))
     except Exception:  # noqa
